@@ -4,6 +4,7 @@ import Nsq.Gen.Chan
 the current tree by tools/go2lean (spec specs/e2_chan.json) and compared here with the expected table.
 A code change that alters one of them breaks the corresponding theorem. -/
 namespace Nsq.Tie.Chan
+set_option maxRecDepth 16000
 
 /-- C02: the only function that deletes from `inFlightMessages` is `popInFlightMessage` (plus the re-make in `initPQ`): the pop decides the single winner between FIN / REQ / TOUCH / timeout scan. Model: `finChanPart`, `req`, `touch`, `timeoutOne` all go through `findE … .inflight`. -/
 theorem inFlightWrites_eq : Nsq.Gen.Chan.inFlightWrites = ([
@@ -45,8 +46,8 @@ theorem answerErrs_eq : Nsq.Gen.Chan.answerErrs = ([
   ("TOUCH", "NewFatalClientErr", "E_INVALID"),
   ("TOUCH", "NewClientErr", "E_TOUCH_FAILED")] : List (String × String × String)) := by decide
 
-/-- C03 `resume`: every path that can turn the guard true wakes the pump: SetReadyCount (RDY raise), FinishedMessage / RequeuedMessage / TimedOutMessage / Empty (in-flight count drops), Pause / UnPause. -/
-theorem readyStateCallers_eq : Nsq.Gen.Chan.readyStateCallers = (["clientV2.Empty", "clientV2.FinishedMessage", "clientV2.Pause", "clientV2.RequeuedMessage", "clientV2.SetReadyCount", "clientV2.TimedOutMessage", "clientV2.UnPause"] : List String) := by decide
+/-- C03 `resume`: every path that can turn the guard true wakes the pump: SetReadyCount (RDY raise), FinishedMessage / RequeuedMessage / TimedOutMessage / Discarded / Empty (in-flight count drops), Pause / UnPause. -/
+theorem readyStateCallers_eq : Nsq.Gen.Chan.readyStateCallers = (["clientV2.Discarded", "clientV2.Empty", "clientV2.FinishedMessage", "clientV2.Pause", "clientV2.RequeuedMessage", "clientV2.SetReadyCount", "clientV2.TimedOutMessage", "clientV2.UnPause"] : List String) := by decide
 
 /-- C03: the ready count is written only by RDY and by StartClose (CLS). -/
 theorem setReadyCallers_eq : Nsq.Gen.Chan.setReadyCallers = (["clientV2.StartClose", "protocolV2.RDY"] : List String) := by decide
@@ -66,12 +67,12 @@ theorem isReady_eq : Nsq.Gen.Chan.isReady = ([
 theorem pumpGuard_eq : Nsq.Gen.Chan.pumpGuard = ([
   "if subChannel == nil || !client.IsReadyForMessages()"] : List String) := by decide
 
-/-- C02/C03: order of effects of one delivery: sampling test, `Attempts++`, StartInFlightTimeout, SendingMessage, SendMessage (model `Op.deliver` / `Op.sampleDrop`). -/
+/-- C02/C03: order of effects of one delivery: sampling test, `Attempts++`, SendingMessage (count first — fix F13: `Channel.Empty` subtracts what it finds registered, so the count never lags behind the in-flight map), StartInFlightTimeout (register), SendMessage (model `Op.deliver` / `Op.sampleDrop`). -/
 theorem pumpDeliver_eq : Nsq.Gen.Chan.pumpDeliver = ([
   "if sampleRate > 0 && rand.Int31n(100) > sampleRate",
   "do msg.Attempts++",
-  "do subChannel.StartInFlightTimeout(msg, client.ID, msgTimeout)",
   "do client.SendingMessage()",
+  "do subChannel.StartInFlightTimeout(msg, client.ID, msgTimeout)",
   "assign err = p.SendMessage(client, msg)"] : List String) := by decide
 
 /-- C13/F8: FIN = Channel.FinishMessage, then client.FinishedMessage (two critical sections: model `finChan` / `finClient`). -/
@@ -138,11 +139,27 @@ theorem chanPutDeferred_eq : Nsq.Gen.Chan.chanPutDeferred = ([
   "do atomic.AddUint64(&c.messageCount, 1)",
   "do c.StartDeferredTimeout(msg, timeout)"] : List String) := by decide
 
-/-- C13/F8: Empty = initPQ, client.Empty for every client, drain, backend.Empty. -/
+/-- C13 (fix F13, formerly F8): Empty = `dropped := initPQ()`, for every client `Discarded(dropped[id])` (a consumer type without it: `Empty()`), drain, backend.Empty (model `Op.empty`: each client's counter minus the in-flight messages it owned). -/
 theorem chanEmpty_eq : Nsq.Gen.Chan.chanEmpty = ([
-  "do c.initPQ()",
+  "assign dropped := c.initPQ()",
+  "assign d, ok := client.(interface{ Discarded(int64) })",
+  "do d.Discarded(dropped[id])",
   "do client.Empty()",
   "stmt return c.backend.Empty()"] : List String) := by decide
+
+/-- C13 (F13): `initPQ` counts, under `inFlightMutex` and before it replaces the map, the in-flight messages per owning client, and returns that. -/
+theorem initPQDropped_eq : Nsq.Gen.Chan.initPQDropped = ([
+  "do c.inFlightMutex.Lock()",
+  "assign dropped := make(map[int64]int64)",
+  "do dropped[msg.clientID]++",
+  "assign c.inFlightMessages = make(map[MessageID]*Message)",
+  "do c.inFlightMutex.Unlock()",
+  "stmt return dropped"] : List String) := by decide
+
+/-- C13 (F13): `clientV2.Discarded(n)` subtracts n from the in-flight count and wakes the pump. -/
+theorem clientDiscarded_eq : Nsq.Gen.Chan.clientDiscarded = ([
+  "do atomic.AddInt64(&c.InFlightCount, -n)",
+  "do c.tryUpdateReadyState()"] : List String) := by decide
 
 /-- C01.1/C13.2: Topic.PutMessage counts message and bytes only after a successful put. -/
 theorem topicPut_eq : Nsq.Gen.Chan.topicPut = ([
@@ -272,5 +289,38 @@ theorem pushInFlight_eq : Nsq.Gen.Chan.pushInFlight = ([
   "do c.inFlightMutex.Unlock()",
   "assign c.inFlightMessages[msg.ID] = msg",
   "do c.inFlightMutex.Unlock()"] : List String) := by decide
+
+/-- C01 (seeded C01-m5): the channel's disk queue accepts records up to max-msg-size + 26 (`minValidMsgLength`: timestamp, attempts, id) — every body the front ends accept fits when the message overflows to the channel's disk (model: `enqueue` never refuses on a durable channel). -/
+theorem chanBackendNew_eq : Nsq.Gen.Chan.chanBackendNew = ([
+  "assign c.backend = newDummyBackendQueue()",
+  "assign c.backend = diskqueue.New( backendName, nsqd.getOpts().DataPath, nsqd.getOpts().MaxBytesPerFile, int32(minValidMsgLength), int32(nsqd.getOpts().MaxMsgSize)+minValidMsgLength, nsqd.getOpts().SyncEvery, nsqd.getOpts().SyncTimeout, dqLogf, )"] : List String) := by decide
+
+/-- C01: the same bound for the topic's disk queue. -/
+theorem topicBackendNew_eq : Nsq.Gen.Chan.topicBackendNew = ([
+  "assign t.backend = newDummyBackendQueue()",
+  "assign t.backend = diskqueue.New( topicName, nsqd.getOpts().DataPath, nsqd.getOpts().MaxBytesPerFile, int32(minValidMsgLength), int32(nsqd.getOpts().MaxMsgSize)+minValidMsgLength, nsqd.getOpts().SyncEvery, nsqd.getOpts().SyncTimeout, dqLogf, )"] : List String) := by decide
+
+/-- C01 (seeded C01-m6): `queueScanLoop` replaces its cached channel list unconditionally at every refresh tick (model: `scanInFlight` / `scanDeferred` are enabled on every existing channel). -/
+theorem scanRefresh_eq : Nsq.Gen.Chan.scanRefresh = ([
+  "assign channels := n.channels()",
+  "do n.resizePool(len(channels), workCh, responseCh, closeCh)",
+  "assign channels = n.channels()",
+  "do n.resizePool(len(channels), workCh, responseCh, closeCh)"] : List String) := by decide
+
+/-- C03 (seeded C03-m5): when the topic pump leaves its pre-start loop (which swallows pause signals) it arms its sources only if the topic is not paused (model: `pumpTopic` is refused while `paused`, whenever the pause arrived). -/
+theorem topicPumpArm_eq : Nsq.Gen.Chan.topicPumpArm = ([
+  "do <-t.pauseChan",
+  "do <-t.startChan",
+  "if len(chans) > 0 && !t.IsPaused()",
+  "do <-t.pauseChan"] : List String) := by decide
+
+/-- C13 (seeded C13-m6): `GetStats` skips (`continue`) a topic that lacks the filtered channel and goes on with the next one (model `filterSnap`: a filter of the whole snapshot, `render_agree`). -/
+theorem statsFilter_eq : Nsq.Gen.Chan.statsFilter = ([
+  "assign val, exists := n.topicMap[topic]",
+  "stmt return stats",
+  "assign val, exists := t.channelMap[channel]",
+  "assign realChannels = []*Channel{val}",
+  "branch continue",
+  "stmt return stats"] : List String) := by decide
 
 end Nsq.Tie.Chan
